@@ -12,10 +12,10 @@ import msuite
 from common import rng_for, PYTHON, VERIF, REPO
 
 PID = 'C02'
-TAGS = ['cancel', 'cleanup', 'abegin', 'awaited', 'got', 'lenter', 'levels', 'lvorder', 'benter', 'tick', 'caught', 'taskret', 'tfin', 'sexit', 'now']
+TAGS = ['spawn', 'cancel', 'cleanup', 'abegin', 'awaited', 'got', 'lenter', 'levels', 'lvorder', 'benter', 'tick', 'caught', 'taskret', 'tfin', 'sexit', 'now']
 RULE = ('random whole-API programs (timers, flags, tracked values, locks, queues, channels, resources, scopes, cancels; plus '
         'many waiters on one tracked value / resource, several equal-date conditions armed through one connective and watched separately, '
-        '6-12 distinct dates pending at once and requested in arbitrary order, a float-time profile with non-dyadic dates, pipe transfers, throw-away supplies whose names are spelled in different orders, suspended tasks cancelled at a date at which several delays end) run in-process and in 4 (quick) / 8 (thorough) other configurations '
+        '6-12 distinct dates pending at once and requested in arbitrary order, a float-time profile with non-dyadic dates, pipe transfers, throw-away supplies whose names are spelled in different orders, suspended tasks cancelled at a date at which several delays end, children started now in the spellings do(x) / do(x, after=0) / do(x, at=now), scopes torn down while 3-6 children wait for ever inside try/finally holding resources) run in-process and in 4 (quick) / 8 (thorough) other configurations '
         '{PYTHONHASHSEED, junk allocations, USIM_WAITQUEUE=SD, python -O}; every configuration must give the same trace as the '
         'in-process run, which must equal the model trace; non-trivial = at least 4 events from at least 2 activities')
 
@@ -120,6 +120,59 @@ def cancel_vs_timers(rng):
     return ['scenario', ['debug', 1], ['start', 0], ['flags', 1], ['locks', 0], ['roots', main]]
 
 
+def closed_services(rng):
+    """3-6 children of an until-scope (or of a scope whose body fails) that wait for something that never comes - a flag nobody
+    sets, a very long delay - inside `try/finally` and while they hold resources; when the scope is torn down every one of
+    them must be closed *there*: a child that is only torn down when the garbage collector finds it logs its clean-up and
+    gives its resources back at a moment that depends on unrelated allocations"""
+    from fractions import Fraction as F
+    n = rng.randint(3, 6)
+    body = []
+    for i in range(n):
+        wait = rng.choice([['await', ['flag', 0]], ['sleep', 500], ['await', ['flag', 0]]])
+        inner = [['finally', ['body', wait], ['cleanup', ['log', 60 + i]]]]
+        if rng.random() < 0.6:
+            inner = [['borrow', 0, [1, 0], 10 + i] + inner]
+        body.append(['spawn', 0, i, None, None, False, ['prog', ['log', 50 + i]] + inner])
+    t = rng.choice([1, 2, 5])
+    if rng.random() < 0.6:
+        scope = ['scope', 0, ['cond', ['moment', t]]] + body + [['sleep', 100]]
+    else:
+        scope = ['scope', 0, ['none']] + body + [['sleep', t], ['raise', 0]]
+    after = [['levels', 0], ['borrow', 0, [rng.randint(3, 6), 0], 30, ['log', 70]], ['levels', 0]]
+    for k in range(rng.randint(2, 5)):
+        after += [['sleep', rng.choice([1, 3, 10])], ['log', 80 + k], ['levels', 0]]
+    main = ['prog', ['try', ['body', scope], ['handler', ['pats', 'concurrent', 'anyException'], ['body', ['log', 99]]]]] + after
+    ticker = ['prog'] + [x for k in range(rng.randint(3, 8)) for x in (['sleep', 2], ['log', 40])]
+    return ['scenario', ['debug', 1], ['start', 0], ['flags', 1], ['locks', 0], ['resources', ['res', 0, 6, 4]], ['roots', main, ticker]]
+
+
+def spawn_spellings(rng):
+    """children started "now" in the three spellings `do(x)`, `do(x, after=0)`, `do(x, at=now)`, mixed with delayed ones and with
+    activities that are made runnable later in the same turn (a flag is set, the starter postpones): they run in the order
+    in which they were started"""
+    from fractions import Fraction as F
+    t0 = rng.choice([0, 1, F(3, 2)])
+    body = []
+    n = rng.randint(3, 6)
+    for i in range(n):
+        k = rng.random()
+        after, at = None, None
+        if k < 0.3:
+            after = 0
+        elif k < 0.55:
+            at = t0
+        elif k < 0.65:
+            after = rng.choice([F(1, 2), 1])
+        # (convention of the judge: `log 700+i` is the very first thing the child does)
+        body.append(['spawn', 0, i, after, at, False, ['prog', ['log', 700 + i], ['sleep', rng.choice([0, 1])], ['log', 20 + i]]])
+        if rng.random() < 0.2:
+            body.append(['set', 0, True])
+    waiter = ['prog', ['await', ['flag', 0]], ['log', 40]]
+    main = ['prog', ['sleep', t0], ['scope', 0, ['none']] + body + [['set', 0, True], ['sleep', 0], ['log', 30]]]
+    return ['scenario', ['debug', 1], ['start', 0], ['flags', 1], ['locks', 0], ['roots', waiter, main]]
+
+
 def run_config(name, env_extra, pyflags, scenarios):
     env = dict(os.environ, PYTHONPATH=REPO, USIM_VERIF_REPO=REPO)
     env.pop('USIM_WAITQUEUE', None)
@@ -154,6 +207,10 @@ def run(tier, seed, drv, scenarios=None):
                 scenarios.append(('rat', pool_family(rng)))
             elif i % 16 == 11:
                 scenarios.append(('rat', cancel_vs_timers(rng)))
+            elif i % 16 == 7:
+                scenarios.append(('rat', closed_services(rng)))
+            elif i % 16 == 15:
+                scenarios.append(('rat', spawn_spellings(rng)))
             elif i % 8 == 5:
                 # pipes (float time): transfers that overlap, are abandoned by deadlines / cancels and follow each other
                 scenarios.append(('float', c13.family(rng)))
